@@ -99,14 +99,17 @@ Reset ==
 \* (a refused call leaves the Writer in its error state - that is what the code does - but the frame
 \* that was closed before stays what it was: done is not touched)
 Keep5 == UNCHANGED <<pending, accepted, items, frames, failed, done, hcalls>>
-WriteAfterClose == ws \in {"closed", "error"} /\ ws' = "error" /\ Keep5
+\* (whether a refused call leaves a closed Writer closed or puts it in error is not observable through the properties -
+\* every later call is refused either way; the code does the one for Write and the other for ReadFrom, and the trace
+\* specification resolves the choice with the state the code reports)
+WriteAfterClose == ws \in {"closed", "error"} /\ ws' \in {ws, "error"} /\ Keep5
 CloseAgain      == ws = "closed" /\ UNCHANGED wvars
 ApplyLate       == ws \in {"write", "closed"} /\ ws' = "error" /\ Keep5
 \* ReadFrom after a write is refused and leaves the Writer in error; after Close it is refused too but, unlike
 \* Write after Close, leaves the Writer closed (writer.go: ReadFrom returns before installing the deferred state
 \* check) - found by binding the lifecycle state the code reports (verif accessor) to ws
 ReadFromLate    == \/ ws = "write" /\ ws' = "error" /\ Keep5
-                   \/ ws = "closed" /\ UNCHANGED wvars
+                   \/ ws = "closed" /\ ws' \in {"closed", "error"} /\ Keep5
 
 \* the sink reports a failure during a call that touches it: the Writer is in error from then on
 SinkFails ==
